@@ -152,6 +152,13 @@ def kernels(opts):
         if (to_scaled and -E > room) or (not to_scaled and E > room):
             continue
         ks.append(mk_int("K%d" % len(ks), RS, E, RD, to_scaled))
+    # always run: down-scaling by exactly / one less / one more than the source digits (the most negative value is
+    # the only one whose truncated result is non-zero there), up-scaling into a wider destination
+    for (RS, E1, RD, E2) in (("i8", -7, "i32", 0), ("i8", -6, "i8", 0), ("i16", -15, "i16", 0), ("i16", -15, "i64", -1),
+                             ("i8", 0, "i8", 7), ("u8", -8, "u32", 0), ("u16", -3, "i32", 12)):
+        ks.append(mk_s2s("K%d" % len(ks), RS, E1, RD, E2))
+    for (RS, E, RD, to_scaled) in (("i8", -7, "i32", False), ("i16", -15, "i8", False), ("i8", 7, "i8", True), ("i16", 15, "i32", True)):
+        ks.append(mk_int("K%d" % len(ks), RS, E, RD, to_scaled))
     fl = ["f32", "f64"] + (["f80"] if tier != "quick" else ["f80"])
     for _ in range(n[2]):
         F = rng.choice(fl)
